@@ -66,12 +66,16 @@ Inductive fn :=
 Definition scope := list (text * value).
 Definition ftable := list (text * fn).
 
+(** an entry of the host file system, as the FS module sees it *)
+Inductive fsent := FFile (contents : text) | FDir.
+
 (** oracles for what the models do not compute: libm, the random stream, the clock, the host files *)
 Record oracle := mkOracle {
   o_libm : list (string * list N * N);        (* function, argument bits, result bits *)
   o_draws : list N;
   o_clock : float;
-  o_files : list (text * text)               (* path -> contents, for user modules *)
+  o_files : list (text * text);              (* path -> contents, for user modules *)
+  o_fs : list (text * fsent)                 (* the directory tree the FS procedures act on: path -> entry *)
 }.
 
 Record state := mkState {
